@@ -1116,7 +1116,25 @@ func (g *pgen) sliceStmt(o *pout) {
 		return
 	}
 	g.cat("slice")
-	switch g.n(0, 10, "slk") {
+	switch g.n(0, 12, "slk") {
+	case 11, 12:
+		// overlapping copy inside one backing array, both directions (memmove semantics),
+		// also through two different slices of the same array
+		g.cat("copy")
+		a := g.fresh()
+		o.line("%s := []int{%s, 2, 3, 4, %s, 6}", a, g.intExpr("int", 0).s, g.intExpr("int", 0).s)
+		g.declare(o, a, "[]int")
+		k := g.n(1, 3, "ok")
+		switch g.n(0, 2, "od") {
+		case 0:
+			o.line("emit(%q + itoa(int64(copy(%s[%d:], %s))) + ints(%s))", "overlap-fwd=", a, k, a, a)
+		case 1:
+			o.line("emit(%q + itoa(int64(copy(%s, %s[%d:]))) + ints(%s))", "overlap-back=", a, a, k, a)
+		default:
+			b := g.fresh()
+			o.line("%s := %s[%d:5]", b, a, k)
+			o.line("emit(%q + itoa(int64(copy(%s, %s[:4]))) + ints(%s))", "overlap-two=", b, a, a)
+		}
 	case 9, 10:
 		// append around the capacity boundary of a fresh slice: one short of, exactly at, one
 		// past the capacity; observed through aliasing with the original and cap equality
